@@ -14,6 +14,12 @@ mkdir -p "$wt/.seeddemo" && cp -r "$src"/. "$wt/.seeddemo/"
 for t in $(grep -ohE 'src/[A-Za-z0-9_/.-]+/seeded_demo[A-Za-z0-9_]*(_test)?\.go' "$src/demo.sh" "$src/meta.json" 2>/dev/null | sort -u); do
   b=$(basename "$t"); [ -f "$src/$b" ] && mkdir -p "$wt/$(dirname "$t")" && cp "$src/$b" "$wt/$t"
 done
+# last resort: demo.sh names only the package (go test ./src/<pkg>/): put top-level demo tests there
+if ! find "$wt/src" -name 'seeded_demo*_test.go' | grep -q .; then
+  for d in $(grep -ohE 'go test[^#]*\./src/[A-Za-z0-9_/.-]+' "$src/demo.sh" | grep -oE '\./src/[A-Za-z0-9_/.-]+' | sort -u); do
+    for t in "$src"/seeded_demo*_test.go; do [ -f "$t" ] && [ -d "$wt/$d" ] && cp "$t" "$wt/$d/"; done
+  done
+fi
 ( cd "$wt" && timeout 900 sh .seeddemo/demo.sh > .seeddemo/without.log 2>&1 ); rc0=$?
 git -C "$wt" apply "$src/patch.diff" || { echo "CONFIRM $id patch-does-not-apply"; exit 3; }
 ( cd "$wt" && go build ./src/... > .seeddemo/build.log 2>&1 ); rcb=$?
